@@ -493,7 +493,7 @@ func init() {
 			"real": {"pkg/blobstore/configuration new_blob_access.go / new_blob_replicator.go / creators (W-config runs: the composite is assembled by the unmodified NewBlobAccessFromConfiguration over model leaves)", "pkg/blobstore/mirrored", "pkg/blobstore/replication: local, deduplicating, concurrency-limiting, queued, noop replicators; GetWithBlobReplicator", "pkg/blobstore/buffer (clones, background tasks, error handlers)", "pkg/digest (sets, existence cache)", "pkg/blobstore/local (real replicas profile)"},
 			"stub": {"replicas (model stores with call log, call failures with drawn codes, mid-stream failures)", "clock", "errgroup/semaphore/sync through verifsimrt"},
 		},
-		Rule:           "a run = 2-6 objects with drawn initial placement (A, B, both, neither) x replicator strategy x 3-14 operations per client (1 client with exact oracles, or 2-3 concurrent clients with monotonic oracles) x injected replica failures (whole calls with 5 codes, mid-stream); oracles: successful Put => both replicas hold it; Get succeeds iff a replica holds it (fault-free) and repairs the first-consulted replica; FindMissing = absent from both and synchronises; no failure is turned into NOT_FOUND or into an incomplete success; errors caused by a replica failure name a replica; non-trivial = a fault was injected or clients ran concurrently; existence-cache-over-mirror: replicas of unlike key formats behind an existence cache, all built by configuration: FindMissing stays exact and synchronising for every instance name",
+		Rule:           "a run = 2-6 objects with drawn initial placement (A, B, both, neither) x replicator strategy x 3-14 operations per client (1 client with exact oracles, or 2-3 concurrent clients with monotonic oracles) x injected replica failures (whole calls with 6 codes incl. CANCELLED, mid-stream); oracles: successful Put => both replicas hold it; Get succeeds iff a replica holds it (fault-free) and repairs the first-consulted replica; FindMissing = absent from both and synchronises; no failure is turned into NOT_FOUND or into an incomplete success; errors caused by a replica failure name a replica; non-trivial = a fault was injected or clients ran concurrently; existence-cache-over-mirror: replicas of unlike key formats behind an existence cache, all built by configuration: FindMissing stays exact and synchronising for every instance name",
 		RequiredProbes: []string{"probe_read_repaired", "probe_findmissing_synchronised", "probe_put_ok", "fault_backend_call_Unavailable", "fault_backend_stream_error"},
 	})
 }
